@@ -3,9 +3,11 @@ import TempestVerif.Model.Dispatch
 /-
   Whole-run model of likelihood-call accounting (C13): the CONTROL FLOW of
 
-    core.py    run_sampling / _initialize_fresh / _initialize_from_resume + load_sampler_state (the `calls` key only)
+    core.py    run_sampling (three-way start: resume path | committed history ⇒ continue | fresh), _initialize_fresh,
+               _initialize_from_resume + load_sampler_state (the `calls` key only)
     core.py    execute_iteration           reweight → train → resample → mutate → commit
-    mutate.py  Mutator.run                 warm-up branch (beta == 0) | parallel_mcmc + `calls + mcmc_calls`
+    mutate.py  Mutator.run                 warm-up branch (beta == 0) with its REDRAW loop (`while np.all(np.isinf(logl))`,
+                                           `n_drawn`, cap) | parallel_mcmc + `calls + mcmc_calls`
     mcmc.py    BaseMCMCRunner.__init__ (n_calls = 0, n_walkers = x.shape[0]), run (`while True`), _evaluate_likelihood
 
   with everything numerical left OPAQUE (`Algo`): the opaque parts can read the whole state and every likelihood VALUE
@@ -26,7 +28,9 @@ structure Algo (S M X V : Type) where
   prep : S → S                       -- `reweighter.run(); trainer.run(w); resampler.run(w)`  (no likelihood evaluation)
   beta0 : S → Bool                   -- `beta == 0.0` as read by `Mutator.run`
   draw : S → List X                  -- `u = rand(n_particles, n_dim); x = [prior_transform(u[i]) for i in range(n_particles)]`
-  warmStore : S → List X → V → S     -- `update_current({...})`, the −inf replacement and the logz correction
+  afterDraw : S → S                  -- the state once those random numbers are consumed (a redraw sees a different stream)
+  allInf : V → Bool                  -- `np.all(np.isinf(logl))`
+  warmStore : S → List X → V → Nat → S   -- `update_current({...})`, the −inf replacement, logz := log(n_finite / n_drawn)
   mcmcInit : S → M                   -- runner construction: copies of u, x, logl, blobs; sigmas; iteration = 0
   nWalkers : S → Nat                 -- `self.n_walkers, self.n_dim = x.shape`
   propose : M → List X               -- `iteration += 1`; `_propose(k)` for every walker, bounds check, `prior_transform`
@@ -42,6 +46,9 @@ structure RunTable where
   nCallsInit : String                -- `self.n_calls = 0` in `BaseMCMCRunner.__init__`
   freshCalls : String                -- `_initialize_fresh`: `set_current("calls", 0)`
   resumeDefault : String             -- `load_sampler_state`: `required_keys["calls"]`, used when the loaded value is None
+  warmDrawnInit : String             -- `n_drawn = self.n_particles`
+  warmDrawnStep : String             -- `n_drawn += self.n_particles` inside the redraw loop
+  warmCap : String                   -- `if n_drawn >= 1000 * self.n_particles: raise ValueError`
 
 /-- value of an integer literal as it appears in the source (the counter's initial values); anything else is unknown -/
 def litNat : String → Option Nat
@@ -49,6 +56,22 @@ def litNat : String → Option Nat
   | "1" => some 1
   | "2" => some 2
   | _ => none
+
+/-- the redraw cap as it appears in the source; `none` in the table = no cap -/
+def capValue (nP : Nat) : String → Option (Option Nat)
+  | "1000 * self.n_particles" => some (some (1000 * nP))
+  | "none" => some none
+  | _ => none
+
+/-- `n_drawn >= cap` -/
+def capReached (cap : Option Nat) (nDrawn : Nat) : Bool :=
+  match cap with
+  | some c => decide (c ≤ nDrawn)
+  | none => false
+
+/-- the expression the warm-up site adds to `calls`: the local `n_drawn`, or (older source) a size expression -/
+def warmIncrement (e : Env) (nDrawn : Nat) (expr : String) : Option Nat :=
+  if expr == "n_drawn" then some nDrawn else exprSize e expr
 
 variable {S M X V : Type}
 
@@ -71,14 +94,38 @@ def mcmcLoop (t : RunTable) (A : Algo S M X V) (ev : Nat → List X → Option V
         if A.converged m' then some (m', nCalls + inc, asked ++ [xp])
         else mcmcLoop t A ev env fuel m' (nCalls + inc) (asked ++ [xp])
 
-/-- `Mutator.run(mode_stats)` -/
-def mutate (t : RunTable) (A : Algo S M X V) (ev : Nat → List X → Option V) (nP : Nat) (fuel : Nat) (r : RS S X) :
-    Option (RS S X) :=
+/-- the redraw loop of the warm-up branch:
+      while np.all(np.isinf(logl)):
+          if n_drawn >= cap: raise ValueError
+          u = rand(...); x = [...]; logl, blobs = self.log_likelihood(x); n_drawn += self.n_particles
+    Returns (state after the draws, x, value, n_drawn, asked).  `none`: ValueError at the cap, fuel, unknown expression,
+    or the likelihood raised. -/
+def warmLoop (t : RunTable) (A : Algo S M X V) (ev : Nat → List X → Option V) (env : Env) (cap : Option Nat) :
+    Nat → S → List X → V → Nat → List (List X) → Option (S × List X × V × Nat × List (List X))
+  | 0, s, x, v, nDrawn, asked => if A.allInf v then none else some (s, x, v, nDrawn, asked)
+  | fuel + 1, s, x, v, nDrawn, asked =>
+    if A.allInf v then
+      if capReached cap nDrawn then none
+      else
+        let x' := A.draw s               -- `s` already has the previous draw's random numbers consumed
+        let s' := A.afterDraw s
+        (ev asked.length x').bind fun v' =>
+          (exprSize env t.warmDrawnStep).bind fun inc =>
+            warmLoop t A ev env cap fuel s' x' v' (nDrawn + inc) (asked ++ [x'])
+    else some (s, x, v, nDrawn, asked)
+
+/-- `Mutator.run(mode_stats)`; `wfuel` bounds the number of redraws the model follows -/
+def mutate (t : RunTable) (A : Algo S M X V) (ev : Nat → List X → Option V) (nP : Nat) (fuel : Nat) (r : RS S X)
+    (wfuel : Nat := 1001) : Option (RS S X) :=
   if A.beta0 r.s then
+    let env : Env := ⟨nP, A.nWalkers r.s⟩
     let x := A.draw r.s
     (ev r.asked.length x).bind fun v =>                                    -- `logl, blobs = self.log_likelihood(x)`
-      (exprSize ⟨nP, A.nWalkers r.s⟩ t.calls.warmupIncrement).map fun inc =>   -- `calls = get_current("calls") + self.n_particles`
-        { s := A.warmStore r.s x v, calls := r.calls + inc, asked := r.asked ++ [x] }
+      (exprSize env t.warmDrawnInit).bind fun n0 =>                        -- `n_drawn = self.n_particles`
+        (capValue nP t.warmCap).bind fun cap =>
+          (warmLoop t A ev env cap wfuel (A.afterDraw r.s) x v n0 (r.asked ++ [x])).bind fun (s', x', v', nDrawn, asked') =>
+            (warmIncrement env nDrawn t.calls.warmupIncrement).map fun inc =>    -- `calls = get_current("calls") + n_drawn`
+              { s := A.warmStore s' x' v' nDrawn, calls := r.calls + inc, asked := asked' }
   else
     (litNat t.nCallsInit).bind fun n0 =>                                   -- `self.n_calls = 0`
       (mcmcLoop t A ev ⟨nP, A.nWalkers r.s⟩ fuel (A.mcmcInit r.s) n0 r.asked).map fun (m, mcmcCalls, asked') =>
@@ -101,15 +148,39 @@ def loop (t : RunTable) (A : Algo S M X V) (ev : Nat → List X → Option V) (n
 
 /-- how a run starts -/
 inductive Start (S : Type) where
-  | fresh (s : S)                              -- `_initialize_fresh()`
+  | fresh (s : S)                              -- no path, empty history: `_initialize_fresh()`
   | resume (s : S) (savedCalls : Option Nat)   -- `load_sampler_state(path)`: the loaded state, and its "calls" entry
                                                -- (`None` when an old state file lacks it)
+  | continued (s : S) (calls : Nat)            -- no path, committed history (a second `run()`, or `load_state()` then
+                                               -- `run()`): nothing is initialised, the counter keeps its current value
 
 /-- the counter after initialisation; the ghost log of THIS process starts empty -/
 def begin (t : RunTable) : Start S → Option (RS S X)
   | .fresh s => (litNat t.freshCalls).map fun c => ⟨s, c, []⟩
   | .resume s (some c) => some ⟨s, c, []⟩
   | .resume s none => (litNat t.resumeDefault).map fun c => ⟨s, c, []⟩
+  | .continued s c => some ⟨s, c, []⟩
+
+/-- the if-chain at the top of `run_sampling` -/
+inductive StartKind where
+  | fresh | resume | continued
+deriving DecidableEq, Repr
+
+def startKind (chain : List (String × String)) (havePath : Bool) (historyLength : Nat) : Option StartKind :=
+  match chain with
+  | [] => none
+  | (test, act) :: rest =>
+    let holds := match test with
+      | "path" => havePath
+      | "history" => decide (historyLength > 0)
+      | "else" => true
+      | _ => false
+    if holds then (match act with
+      | "resume" => some .resume
+      | "continue" => some .continued
+      | "fresh" => some .fresh
+      | _ => none)
+    else startKind rest havePath historyLength
 
 /-- `run_sampling` -/
 def runSampling (t : RunTable) (A : Algo S M X V) (ev : Nat → List X → Option V) (nP fuel iters : Nat) (st : Start S) :
@@ -135,17 +206,19 @@ def evaluatedPoints (how : HowV) (sched : Nat → Nat → List Nat) : Nat → Li
 /-! ### an executable instance: a run scripted by its iteration kinds -/
 
 inductive ItKind where
-  | warm
+  | warm (redraws : Nat)     -- a warm-up iteration whose first `redraws` batches had no finite draw
   | mcmc (steps : Nat)
 deriving Repr
 
-/-- remaining script; `notTerm` = something left.  Points and values are `Unit`. -/
-def scripted (nP nW : Nat) : Algo (List ItKind) Nat Unit Unit where
+/-- remaining script; `notTerm` = something left.  Points are `Unit`; the value of a batch is the flag "all −inf". -/
+def scripted (nP nW : Nat) : Algo (List ItKind) Nat Unit Bool where
   notTerm s := !s.isEmpty
   prep s := s
-  beta0 s := match s with | .warm :: _ => true | _ => false
+  beta0 s := match s with | .warm _ :: _ => true | _ => false
   draw _ := List.replicate nP ()
-  warmStore s _ _ := s.drop 1
+  afterDraw s := s
+  allInf v := v
+  warmStore s _ _ _ := s.drop 1
   mcmcInit s := match s with | .mcmc k :: _ => k | _ => 0
   nWalkers _ := nW
   propose _ := List.replicate nW ()
@@ -154,5 +227,13 @@ def scripted (nP nW : Nat) : Algo (List ItKind) Nat Unit Unit where
   mcmcStore s _ := s.drop 1
   commit s := s
   finish s := s
+
+/-- the flags the scripted evaluator returns, call by call -/
+def scriptFlags : List ItKind → List Bool
+  | [] => []
+  | .warm r :: rest => List.replicate r true ++ [false] ++ scriptFlags rest
+  | .mcmc k :: rest => List.replicate (max 1 k) false ++ scriptFlags rest
+
+def scriptEv (flags : List Bool) : Nat → List Unit → Option Bool := fun j _ => flags[j]?
 
 end Model.CallsRun
